@@ -62,7 +62,10 @@ def check(ctx):
         expect_term(ctx, "C12.1", "arm/" + v, arm, t, e, why[v])
     if "BitSequence" in arms:
         t = show(N.term(arms["BitSequence"]["body"]))
-        ctx.expect("Ok(Value::bit_sequence(mut[BitSequence::new();.BitSequence::push(Rng::gen<bool>(" in t, "C12.1", "arm/BitSequence", site(arms["BitSequence"]),
+        import re as _re
+        ok = "Ok(Value::bit_sequence(mut[BitSequence::new();.BitSequence::push(Rng::gen<bool>(" in t \
+            or _re.match(r"Ok\(Value::bit_sequence\(Iterator::collect\(Iterator::map\(ops::Range\{.*\},\|1\|\{Rng::gen<bool>\(", t) is not None      # the same bits collected
+        ctx.expect(ok, "C12.1", "arm/BitSequence", site(arms["BitSequence"]),
                    "bit sequence -> a BitSequence value of random bits (children not visited: the value does not depend on store/order)", "bit-sequence arm: " + t[:200])
     sc = show(N.term(m["scrut"]))
     ctx.expect(sc == "%s.type_def" % TY, "C12.1", "dispatch", site(m), "dispatch on the type's own definition", "scrutinee " + sc)
